@@ -16,5 +16,5 @@ fi
 if [ $TESTS = 1 ]; then
   ( cd "$WT" && PYTHONPATH="$WT" /venv/bin/python -m pytest -q -p no:cacheprovider --timeout=900 -n 8 tests 2>&1 | tail -1 )
 fi
-VERIF_REPO="$WT" /verif/bin/check "$ID" --tier $TIER --no-evidence | grep -E "VIOLATION|INCONCLUSIVE|held on|violated clause|KNOWN" | cut -c1-260 | head -12
+VERIF_REPO="$WT" /verif/bin/check "$ID" --tier $TIER --no-evidence | grep -E "VIOLATION|INCONCLUSIVE|held on|violated clause" | cut -c1-260 | head -12
 git -C /repo worktree remove --force "$WT"
